@@ -12,6 +12,7 @@ import (
 
 	"github.com/saucelabs/forwarder"
 	"github.com/saucelabs/forwarder/verifharness/lib"
+	"github.com/saucelabs/forwarder/verifharness/wiring"
 )
 
 const MiB = 1 << 20
@@ -648,5 +649,6 @@ func main() {
 	w.tun.Close()
 	run.Floor("limited_transfers_checked", 13)
 	run.Floor("unlimited_transfers_checked", 1)
+	wiring.Run(run, "C20")
 	run.Finish()
 }
